@@ -184,13 +184,13 @@ class MDpadding(blockiterator):
     def remove(self,c):
         clen = self.wsize//4
         counter,_ = unpack(c[-clen:])
-        c = list(c[:-clen])
-        while Bits(c[-1]).ival==0:
+        c = bytearray(c[:-clen])
+        while len(c)>0 and c[-1]==0:
             c.pop()
         if len(c)==0: raise PaddingError("failed to remove padding")
-        b = Bits(c.pop())
+        b = Bits(bytes([c.pop()]))
         b.size=str(b).rfind('1')
-        return b''.join(c)+b.bytes()
+        return bytes(c)+b.bytes()
 
 #------------------------------------------------------------------------------
 class SHApadding(blockiterator):
@@ -216,13 +216,13 @@ class SHApadding(blockiterator):
     def remove(self,c):
         clen = self.wsize//4
         counter,_ = unpack(c[-clen:],bigend=True)
-        c = list(c[:-clen])
-        while Bits(c[-1]).ival==0:
+        c = bytearray(c[:-clen])
+        while len(c)>0 and c[-1]==0:
             c.pop()
         if len(c)==0: raise PaddingError("failed to remove padding")
-        b = Bits(c.pop())
+        b = Bits(bytes([c.pop()]))
         b.size=str(b).rfind('1')
-        return b''.join(c)+b.bytes()
+        return bytes(c)+b.bytes()
 
 #------------------------------------------------------------------------------
 class Blakepadding(blockiterator):
@@ -251,17 +251,17 @@ class Blakepadding(blockiterator):
     def remove(self,c):
         clen = self.wsize//4
         counter,_ = unpack(c[-clen:],bigend=True)
-        c = list(c[:-clen])
-        b = Bits(c.pop())
+        c = bytearray(c[:-clen])
+        b = Bits(bytes([c.pop()]))
         if self.hsize in (256,512):
             assert b[7]==1
             b[7]=0
-        if b.ival!=0: c.append(b.bytes())
-        while Bits(c[-1:]).ival==0:
+        if b.ival!=0: c.extend(b.bytes())
+        while len(c)>0 and c[-1]==0:
             c.pop()
         if len(c)==0: raise PaddingError("failed to remove padding")
-        b = Bits(c.pop())
+        b = Bits(bytes([c.pop()]))
         b.size=str(b).rfind('1')
-        return b''.join(c)+b.bytes()
+        return bytes(c)+b.bytes()
 
 #------------------------------------------------------------------------------
